@@ -109,7 +109,7 @@ def main():
         buf = io.StringIO()
         buf.write("### 13.6 Which checks report which seeded change\n\n")
         buf.write("Generated by `tools/mk_seed_meta.py --design` from seeded/<id>/final.json (the prescribed run on /repo, quick tier, seed 1). "
-                  "`Cxx-k`: written by a sub-agent against property Cxx (k = 1,2 first round; 3,4 second; 5,6 third; 7,8 fourth; 9 fifth); `R-Cxx-<commit>`: reverse of "
+                  "`Cxx-k`: written by a sub-agent against property Cxx (k = 1,2 first round; 3,4 second; 5,6 third; 7,8 fourth; 9 fifth; 10 sixth); `R-Cxx-<commit>`: reverse of "
                   "fix <commit>; `M-`: hand-made. Several changes coincide (different agents picked the same edit): C02-4 = C05-4, "
                   "C10-4 = C11-4 = C12-2 = C12-3, C17-3 = C17-1, C19-3 = C19-1; they are kept because each was written against a different "
                   "property. Every change is reported by the quick check of the property it was written against.\n\n")
